@@ -172,6 +172,10 @@ theorem read_emits (n idx : Nat) : Emits Q (Sd.read B n idx) := by
   unfold Sd.read
   emits [hc _ _ (by decide), readData_emits B _, readBlocks_emits B _]
 
+theorem stopWrite_emits : Emits Q (stopWrite B) := by
+  unfold stopWrite
+  emits [waitNotBusy_emits B _, writeByte_emits B _, readByte_emits B]
+
 include hc ha in
 theorem write_emits (blocks : List Bytes) (idx : Nat) : Emits Q (write B blocks idx) := by
   unfold write
